@@ -210,9 +210,93 @@ def check_read_int(run, rule):
                         env["l:%s#%s" % (v["n"], v["id"])] = minieval.ev(unwrap(v["init"]), env, enums)
                 else:
                     minieval.step(unwrap(lp["init"]), env, enums)
-            # walk the loop over the counter values (finite: at most 8 rounds for a correct loop); per round record
-            # the shift amount in force where the byte is merged and apply the counter updates in statement order
-            shifts = []
+            # walk the loop over its (finite) counter values; the argument is tracked as a map  input byte -> bit position
+            # it ends up at, so `value += byte << ((i-1)*8)` and `value = (value << 8) | byte` are the same thing
+            sym = {}            # variable key -> {byte index: shift}
+            moves = [0]
+
+            def symev(e_):
+                u_ = ir.unwrap_all_casts(e_)
+                if not isinstance(u_, dict):
+                    raise minieval.Unknown("byte expression")
+                cv_ = const_value(e_)
+                if cv_ is None:
+                    cv_ = const_value(u_)
+                if cv_ == 0:
+                    return {}
+                p_ = path(u_)
+                if p_ is not None and u_.get("k") in ("Ref",) and ir.path_str(p_) in sym:
+                    return dict(sym[ir.path_str(p_)])
+                if u_.get("k") == "Index" and path(u_.get("base")) == ("this", "m_p"):
+                    off = minieval.ev(unwrap(u_["idx"]), env, enums)
+                    return {moves[0] + off: 0}
+                if u_.get("k") == "Un" and u_.get("op") == "*" and path(u_.get("e")) == ("this", "m_p"):
+                    return {moves[0]: 0}
+                if u_.get("k") == "Bin" and u_.get("op") == "<<":
+                    sh = minieval.ev(unwrap(u_["rhs"]), env, enums)
+                    return {k_: v_ + sh for k_, v_ in symev(u_["lhs"]).items()}
+                if u_.get("k") == "Bin" and u_.get("op") == "*":
+                    m_ = minieval.ev(unwrap(u_["rhs"]), env, enums)
+                    if m_ > 0 and m_ & (m_ - 1) == 0:
+                        return {k_: v_ + m_.bit_length() - 1 for k_, v_ in symev(u_["lhs"]).items()}
+                    raise minieval.Unknown("multiplication by %s" % m_)
+                if u_.get("k") == "Bin" and u_.get("op") in ("|", "+"):
+                    a_, b_ = symev(u_["lhs"]), symev(u_["rhs"])
+                    if set(a_) & set(b_):
+                        raise minieval.Unknown("the same input byte is merged twice")
+                    a_.update(b_)
+                    return a_
+                raise minieval.Unknown("byte expression %s" % show(u_)[:40])
+
+            def symstep(u_):
+                """statement with an effect on a byte-valued variable; returns True when it was one"""
+                if u_.get("k") == "Decl":
+                    done_ = False
+                    for v in u_.get("vars", []):
+                        if "n" in v and v.get("init") is not None:
+                            try:
+                                m_ = symev(v["init"])
+                            except minieval.Unknown:
+                                continue
+                            if m_:
+                                sym["l:%s#%s" % (v["n"], v["id"])] = m_
+                                done_ = True
+                    return done_
+                if u_.get("k") == "Bin" and u_.get("op") in ("=", "+=", "|="):
+                    lp_ = path(u_.get("lhs"))
+                    key_ = ir.path_str(lp_) if lp_ else None
+                    if key_ is None:
+                        return False
+                    if key_ in env:
+                        # an accumulator that still holds its initial 0 becomes byte-valued with the first byte merged in
+                        if env[key_] != 0:
+                            return False
+                        sym[key_] = {}
+                        try:
+                            m_ = symev(u_["rhs"])
+                        except minieval.Unknown:
+                            del sym[key_]
+                            return False
+                        if not m_:
+                            del sym[key_]
+                            return False
+                        del env[key_]
+                    try:
+                        m_ = symev(u_["rhs"])
+                    except minieval.Unknown:
+                        if key_ in sym:
+                            raise
+                        return False
+                    if u_["op"] == "=":
+                        sym[key_] = m_
+                    else:
+                        cur_ = dict(sym.get(key_, {}))
+                        if set(cur_) & set(m_):
+                            raise minieval.Unknown("the same input byte is merged twice")
+                        cur_.update(m_)
+                        sym[key_] = cur_
+                    return True
+                return False
             rounds = 0
             first = True
             while rounds < 16:
@@ -224,20 +308,23 @@ def check_read_int(run, rule):
                     u = unwrap(s_)
                     if u.get("k") in ("If", "Switch", "For", "While", "Do", "Break", "Continue", "Return"):
                         raise minieval.Unknown("control flow inside the assembly loop")
-                    shs = [n for n in ir.walk(s_) if n.get("k") == "Bin" and n.get("op") == "<<"]
-                    for n in shs:
-                        shifts.append(minieval.ev(unwrap(n["rhs"]), env, enums))
-                    if not shs:
+                    if not symstep(u):
                         minieval.step(u, env, enums)
+                    moves[0] += len([n for n in ir.walk(s_) if decoder.is_mp_move(n)])
                 if lp["k"] == "For" and lp.get("inc") is not None:
                     minieval.step(unwrap(lp["inc"]), env, enums)
                 rounds += 1
-            moves = len([n for n in ir.walk(lp["body"]) if decoder.is_mp_move(n)])
-            ok = shifts == [8 * (want - 1 - k) for k in range(want)] and moves == 1
+            # the value returned after the loop
+            rets = [n for n in ir.walk(f["body"]) if n.get("k") == "Return" and n.get("e") is not None and path(n["e"]) is not None and
+                    ir.path_str(path(n["e"])) in sym]
+            got = sym.get(ir.path_str(path(rets[-1]["e"]))) if rets else None
+            wantmap = {k_: 8 * (want - 1 - k_) for k_ in range(want)}
+            ok = got == wantmap and moves[0] == want
+            shifts = [got.get(k_) for k_ in sorted(got)] if got else []
             run.ob(rule, key, ok, f, lp["l"],
-                   "consumes %d byte(s), most significant first (shifts %s)" % (want, shifts) if ok else
-                   "for additional information %d the loop consumes %d byte(s) with shifts %s; RFC 8949 needs %d byte(s) big-endian %s"
-                   % (ai, len(shifts), shifts, want, [8 * (want - 1 - k) for k in range(want)]))
+                   "consumes %d byte(s), most significant first (bit positions %s)" % (want, shifts) if ok else
+                   "for additional information %d the loop consumes %d byte(s) and places them at bit positions %s; RFC 8949 needs %d byte(s) big-endian %s"
+                   % (ai, moves[0], shifts, want, [8 * (want - 1 - k_) for k_ in range(want)]))
         except minieval.Unknown as e:
             run.ob(rule, key, None, f, lp["l"], "cannot evaluate the assembly loop (%s)" % e)
     # readers reject reserved ai
